@@ -33,9 +33,10 @@ import (
 //   tempo-trace                     : TempoController.Trace (json branch), OTLP protobuf payloads
 
 type listEnv struct {
-	e      *env
-	labels *service.QueryLabelsService
-	router *mux.Router
+	scanFault bool
+	e         *env
+	labels    *service.QueryLabelsService
+	router    *mux.Router
 }
 
 func newListEnv() *listEnv {
@@ -54,6 +55,12 @@ func newListEnv() *listEnv {
 
 func (le *listEnv) script(cols []string, rows [][]driver.Value, errAt int) {
 	le.e.handler.Store(fakesql.Handler(func(ctx context.Context, q string, args []driver.NamedValue) (*fakesql.Answer, error) {
+		if le.scanFault && errAt >= 0 && errAt < len(rows) {
+			// the other way a row source fails: the row arrives but cannot be scanned (NULL in every column)
+			rows2 := append([][]driver.Value{}, rows...)
+			rows2[errAt] = make([]driver.Value, len(cols))
+			return &fakesql.Answer{Cols: cols, Rows: rows2, ErrAt: -1}, nil
+		}
 		return &fakesql.Answer{Cols: cols, Rows: rows, ErrAt: errAt}, nil
 	}))
 }
@@ -83,7 +90,8 @@ func (le *listEnv) get(path string) string {
 }
 
 // one list case: n items, the row source fails at errAt (-1: never)
-func (le *listEnv) runList(endpoint string, r *rand.Rand, n int, errAt int, specToks string) {
+func (le *listEnv) runList(endpoint string, r *rand.Rand, n int, errAt int, specToks string, scanFault bool) {
+	le.scanFault = scanFault
 	class := classOf(r)
 	want := n
 	if errAt >= 0 && errAt < n {
@@ -132,7 +140,7 @@ func (le *listEnv) runList(endpoint string, r *rand.Rand, n int, errAt int, spec
 			return "", ""
 		}
 	}
-	var inputDesc any = map[string]any{"rows": clipAll(strs), "row_source_fails_at": errAt, "string_class": class}
+	var inputDesc any = map[string]any{"rows": clipAll(strs), "row_source_fails_at": errAt, "row_unscannable": scanFault, "string_class": class}
 	switch endpoint {
 	case "loki-labels":
 		le.script([]string{"key"}, strRows(), errAt)
@@ -161,7 +169,7 @@ func (le *listEnv) runList(endpoint string, r *rand.Rand, n int, errAt int, spec
 			b, _ := json.Marshal(decodedMap(maps[i]))
 			rows[i] = []driver.Value{string(b)}
 		}
-		inputDesc = map[string]any{"label_documents": n, "row_source_fails_at": errAt, "string_class": class}
+		inputDesc = map[string]any{"label_documents": n, "row_source_fails_at": errAt, "row_unscannable": scanFault, "string_class": class}
 		le.script([]string{"labels"}, rows, errAt)
 		ch, err := le.labels.Series(ctx, []string{`{a="b"}`}, 1700000000000, 1700000600000, 1)
 		if err != nil {
@@ -208,7 +216,7 @@ func (le *listEnv) runList(endpoint string, r *rand.Rand, n int, errAt int, spec
 			trs[i] = tr{hex.EncodeToString([]byte(fmt.Sprintf("%016d", i))), pick(r, class), pick(r, class), 1700000000000000000 + int64(i), int64(r.Intn(100000))}
 			rows[i] = []driver.Value{trs[i].id, trs[i].svc, trs[i].name, trs[i].start, trs[i].dur}
 		}
-		inputDesc = map[string]any{"traces": n, "row_source_fails_at": errAt, "string_class": class}
+		inputDesc = map[string]any{"traces": n, "row_source_fails_at": errAt, "row_unscannable": scanFault, "string_class": class}
 		le.script([]string{"trace_id", "root_service_name", "root_trace_name", "start_time_unix_nano", "duration_ms"}, rows, errAt)
 		body = le.get("/api/search?limit=20&start=1700000000&end=1700000600")
 		check = func(doc any) (string, string) {
@@ -252,7 +260,7 @@ func (le *listEnv) runList(endpoint string, r *rand.Rand, n int, errAt int, spec
 			}
 			rows[i] = []driver.Value{string(traceID), string(sp.SpanId), "", int64(sp.StartTimeUnixNano), int64(1000), int64(2), string(pb)}
 		}
-		inputDesc = map[string]any{"spans": clipAll(names), "row_source_fails_at": errAt, "string_class": class}
+		inputDesc = map[string]any{"spans": clipAll(names), "row_source_fails_at": errAt, "row_unscannable": scanFault, "string_class": class}
 		le.script([]string{"trace_id", "span_id", "parent_id", "timestamp_ns", "duration_ns", "payload_type", "payload"}, rows, errAt)
 		body = le.get("/api/traces/" + hex.EncodeToString(traceID))
 		check = func(doc any) (string, string) {
@@ -347,6 +355,7 @@ var stringItems = map[string]bool{"loki-labels": true, "loki-label-values": true
 type listJob struct {
 	endpoint string
 	n, errAt int
+	scan     bool
 	toks     string
 	seed     int64
 }
@@ -380,7 +389,10 @@ func runLists(cases []*SpecCase, seed int64, full int, par int) {
 			if stringItems[ep] {
 				t = specTokens(c.Toks)
 			}
-			jobs = append(jobs, listJob{ep, n, errAt, t, seed*7919 + int64(c.N)})
+			jobs = append(jobs, listJob{endpoint: ep, n: n, errAt: errAt, toks: t, seed: seed*7919 + int64(c.N)})
+			if errAt >= 0 {
+				jobs = append(jobs, listJob{endpoint: ep, n: n, errAt: errAt, toks: t, seed: seed*7919 + int64(c.N), scan: true})
+			}
 		}
 	}
 	// seeded hostile sample with more rows
@@ -393,7 +405,7 @@ func runLists(cases []*SpecCase, seed int64, full int, par int) {
 				if r.Intn(6) == 0 && n > 0 {
 					errAt = r.Intn(n)
 				}
-				jobs = append(jobs, listJob{ep, n, errAt, "", r.Int63()})
+				jobs = append(jobs, listJob{endpoint: ep, n: n, errAt: errAt, seed: r.Int63(), scan: errAt >= 0 && r.Intn(2) == 0})
 			}
 		}
 	}
@@ -405,7 +417,7 @@ func runLists(cases []*SpecCase, seed int64, full int, par int) {
 			defer wg.Done()
 			le := newListEnv()
 			for j := range ch {
-				le.runList(j.endpoint, rand.New(rand.NewSource(j.seed)), j.n, j.errAt, j.toks)
+				le.runList(j.endpoint, rand.New(rand.NewSource(j.seed)), j.n, j.errAt, j.toks, j.scan)
 			}
 		}()
 	}
